@@ -5,7 +5,9 @@ import (
 	"context"
 	"encoding/binary"
 	"encoding/json"
+	"errors"
 	"fmt"
+	"io"
 	"net/http"
 	"sort"
 	"strings"
@@ -31,6 +33,9 @@ type Case struct {
 	Trailer    []prog.KV `json:"trailer"`
 	ProtoMajor int       `json:"proto_major"`
 	Origin     string    `json:"origin"`
+	// ReadErr: after the body bytes the transport reports this failure instead
+	// of a clean end ("unexpected": io.ErrUnexpectedEOF, "reset": a connection reset)
+	ReadErr string `json:"read_err,omitempty"`
 }
 
 func kvs(h http.Header) []prog.KV {
@@ -69,7 +74,14 @@ func rawHeader(list []prog.KV) http.Header {
 func run(tt *testing.T, c Case) (*prog.CResult, error) {
 	var res *prog.CResult
 	err := pbt.Bubble(tt, func() error {
-		sc := memnet.NewScript(c.Status, rawHeader(c.Header), bytes.NewReader(c.Body), rawHeader(c.Trailer))
+		var body io.Reader = bytes.NewReader(c.Body)
+		switch c.ReadErr {
+		case "unexpected":
+			body = &memnet.ChunkReader{Data: c.Body, EndErr: io.ErrUnexpectedEOF}
+		case "reset":
+			body = &memnet.ChunkReader{Data: c.Body, EndErr: errors.New("read tcp 10.0.0.1:443: read: connection reset by peer")}
+		}
+		sc := memnet.NewScript(c.Status, rawHeader(c.Header), body, rawHeader(c.Trailer))
 		sc.ProtoMajor = c.ProtoMajor
 		cfg := prog.Config{Protocol: c.Protocol, Codec: c.Codec, Kind: c.Kind, CAccept: []string{"deflate"}}
 		cp := &prog.ClientProg{Msgs: []prog.Msg{{N: 1}}}
@@ -161,7 +173,7 @@ func check(tt *testing.T, c Case) (pbt.Info, error) {
 	info.Label("origin:" + c.Origin)
 	info.NonTrivial = c.Origin != "valid" && (len(c.Body) > 0 || c.Status != 200)
 	res, berr := run(tt, c)
-	where := fmt.Sprintf("%s/%s/%s client given HTTP %d, headers %v, %d body bytes %q, trailers %v", c.Protocol, c.Codec, c.Kind, c.Status, c.Header, len(c.Body), trunc(c.Body, 80), c.Trailer)
+	where := fmt.Sprintf("%s/%s/%s client given HTTP %d, headers %v, %d body bytes %q, trailers %v, body read ending %q", c.Protocol, c.Codec, c.Kind, c.Status, c.Header, len(c.Body), trunc(c.Body, 80), c.Trailer, c.ReadErr)
 	if berr != nil {
 		return info, fmt.Errorf("%s: %v", where, berr)
 	}
@@ -201,7 +213,7 @@ func check(tt *testing.T, c Case) (pbt.Info, error) {
 		}
 		// metamorphic: the code depends on the status alone
 		bare := c
-		bare.Header, bare.Body, bare.Trailer = nil, nil, nil
+		bare.Header, bare.Body, bare.Trailer, bare.ReadErr = nil, nil, nil, ""
 		res2, berr2 := run(tt, bare)
 		if berr2 != nil {
 			return info, fmt.Errorf("%s (bare variant): %v", where, berr2)
@@ -376,6 +388,9 @@ func gen(t *rapid.T) Case {
 		c.Body = rapid.SliceOfN(rapid.Byte(), 0, 64).Draw(t, "body")
 	}
 	c.Body = clampLengths(c.Body)
+	if rapid.IntRange(0, 5).Draw(t, "readErr") == 0 {
+		c.ReadErr = rapid.SampledFrom([]string{"unexpected", "reset"}).Draw(t, "readErrKind")
+	}
 	return c
 }
 
